@@ -62,7 +62,7 @@ ENV = {
     "dbc": dict(ecus=True, ecu_comments=True, frame_comments=True, signal_comments=True, multiline=True, senders="many", receivers=True,
                 motorola=True, signed=True, floats=True, mux=["none", "none", "simple", "extended"], values=True, neg_values=True,
                 attributes=["net", "ecu", "frame", "signal"], attr_types=["INT", "HEX", "FLOAT", "STRING", "ENUM"], unit_max=32, nonascii=True,
-                limits=True, ext=True, unique_signals=False, static_with_mux=True, min_len=1, mux_named=True, groups=True, value_tables=True),
+                limits=True, ext=True, unique_signals=False, static_with_mux=True, min_len=1, mux_named=True, groups=True, value_tables=True, empty_string_attr=True, long_names=True),
     "dbf": dict(ecus=True, ecu_comments=True, frame_comments=True, signal_comments=True, multiline=False, senders="one", receivers=True,
                 motorola=True, signed=True, floats=True, mux=["none", "none", "simple"], values=True, neg_values=False,
                 attributes=["net", "ecu", "frame", "signal"], attr_types=["INT", "HEX"], unit_max=16, nonascii=True,
@@ -79,7 +79,8 @@ ENV = {
     "json": dict(ecus=True, ecu_comments=True, frame_comments=True, signal_comments=True, multiline=True, senders="many", receivers=True,
                  motorola=True, signed=True, floats=True, mux=["none", "none", "simple"], values=True, neg_values=True,
                  attributes=["net", "frame", "signal"], attr_types=["INT", "HEX", "FLOAT", "STRING", "ENUM"], unit_max=32, nonascii=True,
-                 limits=True, ext=True, unique_signals=False, static_with_mux=True, min_len=1, mux_named=True),
+                 limits=True, ext=True, unique_signals=False, static_with_mux=True, min_len=1, mux_named=True, start_values=True,
+                 empty_string_attr=True),
     "arxml": dict(ecus=True, ecu_comments=True, frame_comments=True, signal_comments=True, multiline=False, senders="many", receivers=True,
                   motorola=True, signed=True, floats=True, mux=["none", "none", "simple"], values=True, neg_values=False,
                   attributes=[], attr_types=[], unit_max=32, nonascii=True,
@@ -96,6 +97,9 @@ WORDS = ["engine", "speed", "value", "of", "the", "sensor", "raw", "filtered", "
 WORDS_PLAIN = [w for w in WORDS if "," not in w and ";" not in w]
 
 
+LONG_NAMES = [False]      # set per description by gen_desc (DBC: names beyond 32 characters, written under a 32-character symbol)
+
+
 def pick_name(rng, used, prefix):
     for _ in range(500):
         n = prefix + rng.choice(NAME_POOL)
@@ -103,6 +107,17 @@ def pick_name(rng, used, prefix):
             n += rng.choice(["_", ""]) + rng.choice(NAME_POOL)
         if rng.random() < 0.4:
             n += str(rng.randrange(0, 30))
+        if LONG_NAMES[0] and rng.random() < 0.3:
+            sibling = [u for u in used if len(u) > 32 and u.startswith(prefix)]
+            if sibling and rng.random() < 0.3:
+                n = rng.choice(sibling)[:32] + rng.choice(["X", "_b", "Other"]) + str(rng.randrange(100))   # shares its first 32 characters
+            else:
+                while len(n) <= 32:
+                    n += "_" + rng.choice(NAME_POOL)
+            if n not in used and len(n) <= 64:
+                used.add(n)
+                return n
+            continue
         if n not in used and len(n) <= 30:
             used.add(n)
             return n
@@ -142,6 +157,8 @@ def gen_layout(rng, nbytes, n_max, motorola=True, widths=None, free=None, le_onl
         if w > nbits:
             continue
         start = rng.randrange(0, nbits)
+        if rng.random() < 0.15:
+            start = 0 if bo == "intel" else 7       # the first payload bit / top bit of byte 0
         bits = desc_bits(dict(byte_order=bo, start=start, width=w))
         if any(b < 0 or b >= nbits for b in bits) or not set(bits) <= free:
             continue
@@ -156,6 +173,7 @@ def gen_layout(rng, nbytes, n_max, motorola=True, widths=None, free=None, le_onl
 
 def gen_desc(rng, fmt, size="small"):
     env = ENV[fmt]
+    LONG_NAMES[0] = bool(env.get("long_names")) and rng.random() < 0.35
     desc = dict(format_envelope=fmt, ecus=[], frames=[], attr_defs=[], net_attributes={})
     used_e, used_f, used_s_global = set(), set(), set()
     ecu_names = []
@@ -192,13 +210,13 @@ def gen_desc(rng, fmt, size="small"):
             if d["object"] != obj or rng.random() < 0.5:
                 continue
             if d["type"] in ("INT", "HEX"):
-                out[d["name"]] = rng.randrange(d["min"], d["max"] + 1)
+                out[d["name"]] = rng.randrange(d["min"], d["max"] + 1) if (rng.random() < 0.75 or not d["min"] <= 0 <= d["max"]) else 0
             elif d["type"] == "FLOAT":
-                out[d["name"]] = rng.choice([D("0.5"), D("2"), D("9.25"), D("0.001")])
+                out[d["name"]] = rng.choice([D("0.5"), D("2"), D("9.25"), D("0.001"), D("0")])
             elif d["type"] == "ENUM":
                 out[d["name"]] = rng.choice(d["values"])
             else:
-                out[d["name"]] = rng.choice(["x", "hello world", "a;b", "v1.2"])
+                out[d["name"]] = rng.choice(["x", "hello world", "a;b", "v1.2", "0", ""] if env.get("empty_string_attr") else ["x", "hello world", "a;b", "v1.2", "0"])
         return out
     desc["net_attributes"] = attr_values("net")
     if env.get("value_tables") and rng.random() < 0.4:
@@ -216,6 +234,8 @@ def gen_desc(rng, fmt, size="small"):
         ext = env["ext"] and rng.random() < 0.4
         while True:
             fid = rng.randrange(1, 2 ** 29 if ext else 2 ** 11)
+            if rng.random() < 0.08:
+                fid = 0         # identifier 0 is a legal identifier ('falsy' value audit)
             if ext and rng.random() < 0.6:
                 fid |= 0x800
             if fid not in used_ids:       # id numbers unique across standard/extended keeps every format's key space apart
@@ -225,7 +245,7 @@ def gen_desc(rng, fmt, size="small"):
         fname = pick_name(rng, used_f, "F")
         fr = dict(name=fname, id=fid, extended=bool(ext), length=L, senders=[], comment=None, attributes=attr_values("frame"), signals=[])
         if env["frame_comments"] and rng.random() < 0.5:
-            fr["comment"] = comment_text(rng, env, env["multiline"])
+            fr["comment"] = comment_text(rng, env, env["multiline"]) if rng.random() < 0.9 else ""
         if env["senders"] == "one":
             fr["senders"] = [rng.choice(ecu_names)] if rng.random() < 0.85 else []
         elif env["senders"] == "many":
@@ -276,6 +296,23 @@ def gen_desc(rng, fmt, size="small"):
                 if rng.random() < 0.3 and hi - lo > 4:       # limits narrower than the raw range
                     lo, hi = lo + rng.randrange(0, 2), hi - rng.randrange(1, 3)
                 s["min"], s["max"] = offset + lo * factor, offset + hi * factor
+            if not isf and rng.random() < 0.25:
+                # a limit that is exactly 0 although the raw range would give another value ('falsy' value audit):
+                # raw value k is the physical 0, so offset = -k*factor; min = 0 (k > lo) or max = 0 (k < hi)
+                lo, hi = raw_range(s)
+                if env.get("limits_times_factor"):
+                    if rng.random() < 0.5 and lo < 0:
+                        s["min"] = D(0)
+                    else:
+                        s["max"] = D(0)
+                        s["min"] = min(s["min"], D(0))
+                else:
+                    k = rng.choice([0, 0, rng.randrange(lo, hi + 1)])
+                    s["offset"] = offset = -k * factor
+                    if (rng.random() < 0.5 and k > lo) or k >= hi:
+                        s["min"], s["max"] = D(0), offset + hi * factor
+                    else:
+                        s["min"], s["max"] = offset + lo * factor, D(0)
             u = rng.choice(UNITS)[: env["unit_max"]]
             if not env["nonascii"]:
                 u = u.encode("ascii", "ignore").decode()
@@ -285,11 +322,16 @@ def gen_desc(rng, fmt, size="small"):
             if env["values"] and not isf and rng.random() < 0.4:
                 lo, hi = raw_range(s)
                 lo = max(lo, -5) if env["neg_values"] else max(lo, 0)
-                keys = sorted({rng.randrange(lo, min(hi, 20) + 1) for _ in range(rng.randrange(1, 5))})
+                keys = sorted({rng.randrange(lo, min(hi, 20) + 1) for _ in range(rng.randrange(1, 5))} | ({0} if rng.random() < 0.5 else set()))
                 labs = rng.sample(LABELS, len(keys))
                 s["values"] = {k: (l if env["nonascii"] else l.encode("ascii", "ignore").decode()) for k, l in zip(keys, labs)}
             if env["signal_comments"] and rng.random() < 0.4:
-                s["comment"] = comment_text(rng, env, env["multiline"])
+                s["comment"] = comment_text(rng, env, env["multiline"]) if rng.random() < 0.9 else ""    # "" = an explicitly empty comment
+            if env.get("start_values") and rng.random() < 0.3 and not isf:
+                lo, hi = raw_range(s)
+                raw = rng.choice([lo, hi, 0 if lo <= 0 <= hi else lo, rng.randrange(lo, hi + 1)])
+                if s["min"] <= s["offset"] + raw * factor <= s["max"]:
+                    s["start_value"] = s["offset"] + raw * factor
             if env.get("sym_switches"):
                 # PEAK's /ln (long name), /p (decimal places), /d (default value, physical, on the raw grid inside the limits)
                 x = {}
@@ -348,7 +390,7 @@ def to_jsonable(x):
 
 # ---------------------------------------------------------------------------------------------------------------
 # number renderings the formats' grammars allow for one exact decimal value (shared by the renderers)
-NUM_STYLES = ["plain", "expE", "expe", "plus", "tz"]
+NUM_STYLES = ["plain", "expE", "expe", "plus", "tz", "nz"]      # nz: zero written -0.0 (other values plain)
 
 
 def plain(x):
@@ -361,6 +403,8 @@ def plain(x):
 def render_number(x, style, allow_plus=True):
     """x: Decimal or int.  plain 0.001 | expE 1E-3 | expe 1.0e-03 | plus +0.001 | tz 0.00100 (100 -> 100.0)"""
     x = D(x)
+    if style == "nz":
+        return "-0.0" if x == 0 else plain(x)
     if style == "plain" or (style == "plus" and not allow_plus):
         return plain(x)
     if style == "plus":
